@@ -1,4 +1,5 @@
 """C11 — containers behave as their abstract sequence / map under every operation history."""
+from translators import tr_c11
 
 PID = "C11"
 CLAIM = True
@@ -19,8 +20,23 @@ MANIFEST_TEXT = ("Lean 4 theorems, for all operation histories, all element valu
                  "1..129 around the 32/64/128-bit word boundaries of std::bitset, chunk sizes incl. powers of two and the "
                  "default 100, capacities up to 65) (every op observed on every instance: size, empty, front/back, full "
                  "forward/backward/const iteration, comparisons, find, held iterators, every view of a bit block) with "
-                 "std::deque/list/vector/bitset/map shadow oracles deciding the property itself under ASan/UBSan.")
-MANIFEST_NOTE = ("Trusted: Lean kernel (+propext/Classical.choice/Quot.sound), the hand-written models' fidelity (checked by "
+                 "std::deque/list/vector/bitset/map shadow oracles deciding the property itself under ASan/UBSan. Round four: "
+                 "tools/translators/tr_c11.py re-reads the straight-line member functions of arraylist.hh (chunkSize_, elementAt, "
+                 "operator[], begin/end/size, the iterators' elementAt/dereference/advance/increment/decrement/distanceTo/equals, "
+                 "push_back, purge, eraseToHere incl. its loop bound, clear), the block addressing of bitsetvector.hh (getBit, the "
+                 "sizing constructors, resize, size, the vector<bool> constructor's test) and of reservedvector.hh (operator[], "
+                 "front, back, at, size/empty/capacity, clear, resize, push_back x2, emplace_back, pop_back, all 12 begin/end "
+                 "variants, fill, hash range, every CHECKSIZE) by symbolic execution of their statements in source order into "
+                 "lean/DuneVerif/Gen/C11.lean on every run; 11 theorems (gen_*) prove that each model operation is exactly that "
+                 "generated state transformer, both constnesses, and re-derive element access, iterator access, the freed-chunk "
+                 "count and the capacity bound for the generated formulas; the harness additionally drives every operator of "
+                 "RandomAccessIteratorFacade / ForwardIteratorFacade (it++, it--, -=, it+-n, it[-j], ->, < <= > >=) on the "
+                 "ArrayList and SLList iterator classes.")
+MANIFEST_NOTE = ("Trusted: Lean kernel (+propext/Classical.choice/Quot.sound), tr_c11.py (its grammar: assignments, compound "
+                 "assignments, ++/--, locals, asserts without side effects, + - * / % and comparisons; anything else is a loud "
+                 "TranslateError; size_t arithmetic is read as natural-number arithmetic, exact inside the invariant), the "
+                 "hand-written models' fidelity for everything the translator does not regenerate (SLList, lru, the BitSetVector "
+                 "proxy loops, ArrayList copy, ReservedVector comparisons/constructors: checked by "
                  "differential execution only), harness/cxx_c11.cc + cxx_c11_rel.cc + c11_containers.hh and Driver/C11.lean "
                  "parsing/printing, libstdc++ containers as oracle, g++/ASan/UBSan. Pointer structure of SLList/lru is "
                  "abstracted to node ids; the models have value semantics, so 'a copy shares nothing with its original' is "
@@ -34,8 +50,8 @@ MANIFEST_NOTE = ("Trusted: Lean kernel (+propext/Classical.choice/Quot.sound), t
                  "statement of the five headers depends on them. Both translation units are compiled at -O0 -g1 and UBSan "
                  "without null/alignment/vptr/pointer-overflow/object-size (compile time; ASan still catches null and wild "
                  "accesses).")
-TECHNIQUE = "Lean 4 refinement proofs (invariant + induction over operation histories) + differential correspondence with std:: shadow oracles"
-TRANSLATORS = []
+TECHNIQUE = "Lean 4 refinement proofs (invariant + induction over operation histories) + translator for the straight-line index arithmetic / member updates of ArrayList, BitSetVector, ReservedVector + differential correspondence with std:: shadow oracles"
+TRANSLATORS = [tr_c11.translate]
 HARNESS = dict(
     # cxx_c11_rel.cc: the same runners (c11_containers.hh) against the headers in the release configuration (NDEBUG, no
     # DUNE_CHECK_BOUNDS / CHECK_RESERVEDVECTOR; library renamed to another namespace); cxx_c11.cc is "all checks on"
@@ -60,16 +76,20 @@ RULE = ("cases: one random operation history (0..40 ops quick, ..60 thorough; ..
         "their precondition (skipped on both sides); thorough adds all words of length 6 (ArrayList N=1,2,3) / 5 (SLList, lru, "
         "two-list ArrayList N=2,3 and two-cache lru with copies) / 4 (BitSetVector<65>: bit writes at the word boundary, shifts "
         "by 1/64, block-to-block ops) / 3 (BitSetVector<129>, release build) over small op alphabets; distinct = distinct op "
-        "lines; non-trivial = at least one op executed")
+        "lines; non-trivial = at least one op executed; round four: ReservedVector at(i) with i aimed at size() / size()-1 and "
+        "both at() overloads judged independently; after every ArrayList op all operators of RandomAccessIteratorFacade on "
+        "iterator and const_iterator at a position that moves with the history, after every SLList op it++ / -> of iterator, "
+        "const_iterator and modify iterator")
 ASSUMPTIONS = [
-    "the Lean models lean/DuneVerif/Model/C11/*.lean are hand-written; their fidelity to the headers rests on this differential run",
+    "the Lean models lean/DuneVerif/Model/C11/*.lean are hand-written; for the functions listed in MANIFEST_TEXT their formulas, conditions, loop bounds and statement order are tied to the source by tr_c11.py + the gen_* theorems, for the rest their fidelity to the headers rests on this differential run",
+    "a source change that leaves the translator's grammar, or changes a generated formula for arguments outside the invariant only (e.g. BitSetVector::size() rounding up), is reported as a broken obligation even if no failing input exists (no-failing-input-found)",
     "element type int, key type int; the theorems are generic in the element/key type (no statement of the headers branches on the type)",
     "template parameters N, n, B are sampled by region (see RULE); the theorems hold for all values",
     "the two build configurations (checks on / NDEBUG release) are expected to behave identically on histories inside the preconditions; one model serves both",
     "SLList is instantiated with a counting allocator providing allocate(n, hint) (std::allocator lost it in C++20, push_front needs it)",
     "operations outside their documented precondition (undefined behaviour / failing assert in C++) are not executed",
 ]
-TRUSTED = ["g++/libstdc++ (std::deque/list/vector/bitset/map as oracle), ASan/UBSan", "harness/cxx_c11.cc + Driver/C11.lean parsing/printing"]
+TRUSTED = ["g++/libstdc++ (std::deque/list/vector/bitset/map as oracle), ASan/UBSan", "translator tr_c11.py", "harness/cxx_c11.cc + Driver/C11.lean parsing/printing"]
 
 
 def _seed(seed, i):
